@@ -432,11 +432,12 @@ example : ctxWitness.ContextDep := by
 -- keyword items: some rows of the table the theorem ranges over, incl. a multi-column one
 example : ("ZMFVD.0.DATA", ["Length", "1", "1"]) ∈ keywordItemDims ∧
     keywordItemDims.length > 1000 ∧ "Ymodule" ∈ keywordDimStrings := by decide +kernel
--- the remaining open finding is real (the listed exception does fail), the repaired ones hold, and the
--- pre-fix entries would not: "Giga*Pascal" parses nowhere, geometric_volume_rate ≠ rb/day in FIELD
+-- the open findings are real (the listed exceptions do fail: LIFT everywhere, RESV in FIELD only), the
+-- repaired ones hold, and the pre-fix FieldProps entry would not ("Giga*Pascal" parses nowhere)
 example : Spec.deckSystems.all (fun s => !Spec.udaOk s ("WCONPROD_LIFT", "gas_surface_rate")) = true ∧
     Spec.deckSystems.all (fun s => (parse s "Giga*Pascal").isNone) = true ∧
     Spec.udaOk (sys.UNIT_TYPE_FIELD Rat) ("WCONPROD_RESV", "geometric_volume_rate") = false ∧
+    Spec.udaOk (sys.UNIT_TYPE_METRIC Rat) ("WCONPROD_RESV", "geometric_volume_rate") = true ∧
     Spec.udaOk (sys.UNIT_TYPE_FIELD Rat) ("WCONPROD_RESV", "rate") = true ∧
     ("GRID", "YMODULE", "Ymodule") ∈ fieldPropsUnits := by decide +kernel
 -- summary: Mscf/day · day = Mscf, Mscf/day ÷ stb/day = Mscf/stb in FIELD
